@@ -2,9 +2,12 @@
 import vlib
 from props import solverstream as ss, tracecheck as tc
 
-THEOREMS = ["C03_truthful", "C03_reachable", "C03_graph_refutes", "C03_split_sound", "C03_core_unsat"]
+THEOREMS = ["C03_truthful", "C03_reachable", "C03_graph_refutes", "C03_split_sound", "C03_core_unsat",
+            "C03_built_graph_truthful", "C03_graph_of_checked_db_truthful"]
 CHECKER = ("coqc Props/C03.v + Print Assumptions; harness solve_cases: Conflict::graph of every Unsolvable (public API) -> extracted "
-           "truthfulb / reachableb / refutesb; hook dump -> extracted check_core on the clause ids reported in the Conflict")
+           "truthfulb / reachableb / refutesb; hook dump -> extracted check_core on the clause ids reported in the Conflict; "
+           "hook dump + clause ids -> extracted build_graph (model of Conflict::graph) must equal the public graph node for node and "
+           "edge for edge; the dumped database must consist of facts (facts_ok: hypothesis of C03_graph_of_checked_db_truthful)")
 
 
 def tok_graph(g):
@@ -57,8 +60,19 @@ def run(res, tier, seed, replay):
         d = r["obs"].get("dump")
         if d:
             lines.append(f"core c{i} " + vlib.toks(vlib.tok_log(d), vlib.tok_list(d["core"])))
+        if d and c and c.get("graph"):
+            db = [len(d["clauses"])]
+            for cl in d["clauses"]:
+                db += vlib.tok_clause(cl)
+            lines.append(f"gbuild b{i} " + vlib.toks(vlib.tok_universe(r["case"]["u"]), db, vlib.tok_list(d["core"]), tok_graph(c["graph"])))
     out = vlib.oracle(lines)
-    ngraph, ncore, with_learnt = 0, 0, 0
+    tc.annotate(recs)
+    for r in recs:
+        t = r.get("trace")
+        if t and ss.outcome_kind(r["obs"]["outcome"]) == "unsat" and not t.get("db"):
+            res.tie_break(f"the dumped clause database of an Unsolvable run is not made of facts and certified learnt clauses "
+                          f"(hypothesis facts_ok of C03_graph_of_checked_db_truthful) in {r['stream']}: {t}", tc.trace_replay(r))
+    ngraph, ncore, with_learnt, nbuilt = 0, 0, 0, 0
     for k_, v in out.items():
         if v.startswith("error"):
             raise vlib.CheckError("oracle error: " + v)
@@ -80,6 +94,13 @@ def run(res, tier, seed, replay):
             if not rf:
                 res.violation(key, f"the facts displayed in the conflict graph are satisfiable: the report is not a proof of "
                               f"unsatisfiability ({r['stream']})", rep)
+        elif k_[0] == "b":
+            nbuilt += 1
+            if v.split()[0] != "1":
+                res.tie_break(f"the graph returned by Conflict::graph differs from the model build_graph applied to the dumped clauses "
+                              f"{r['obs']['dump']['core']} (theorems C03_built_graph_truthful / C03_graph_of_checked_db_truthful no longer "
+                              f"speak about this graph) in {r['stream']}; the graph itself passes the edge-by-edge checks",
+                              dict(ss.replay_obj(r), graph=g, core=r["obs"]["dump"]["core"], model_sizes=v.split()[1:]))
         else:
             ncore += 1
             d = r["obs"]["dump"]
@@ -91,5 +112,5 @@ def run(res, tier, seed, replay):
     res.rule = ("every Unsolvable outcome of the conflict/dense/small streams (all feature masks): the public ConflictGraph is judged edge "
                 "by edge, for reachability and for unsatisfiability of its displayed facts; the reported clause ids are certified through "
                 "RUP-checked learnt clauses; non-trivial = graph with >= 4 nodes")
-    res.extra.update({"graphs_checked": ngraph, "cores_checked": ncore, "cores_of_runs_with_learnt_clauses": with_learnt, "hangs": len(hangs)})
+    res.extra.update({"graphs_compared_with_build_model": nbuilt, "graphs_checked": ngraph, "cores_checked": ncore, "cores_of_runs_with_learnt_clauses": with_learnt, "hangs": len(hangs)})
     return res.finish(CHECKER, vlib.TRUSTED_BASE, ["display strings are not part of the graph; message text is C04/C06's business"])
